@@ -5,55 +5,55 @@ import json
 BUILT = {
  "C01": dict(cat="model_checking", engine="seqx+absx", ref="§3 C01",
    tech="explicit enumeration of all operation sequences to a depth bound on the real OrderBook, each step compared with a reference matching engine + drain probe",
-   text="Every history up to the stated depth over the stated alphabets (limit/market both sides x 3 prices x 2 volumes, cancels of every id, separate create/place, event route, re-pricing and re-sizing modifications directly and as process_event(Modify), clock advance {0,+1} under the clock discipline, ticks 1..10, LEVELS 1..24, 4 scripted non-initial start states) is executed on a fresh real OrderBook; after every operation the full observable snapshot must equal the reference engine's and sweeping the book must execute the same (passive id, price, volume) sequence. Exhaustive within the bound, no sampling.",
+   text="Every history up to the stated depth over the stated alphabets (limit/market both sides x 3 prices x 2 volumes, cancels of every id, separate create/place, event route, re-pricing and re-sizing modifications directly and as process_event(Modify), clock advance {0,+1} under the clock discipline, ticks 1..10, LEVELS 1..24, 4 scripted non-initial start states) is executed on a fresh real OrderBook; after every operation the full observable snapshot must equal the reference engine's and sweeping the book must execute the same (passive id, price, volume) sequence. Exhaustive within the bound, no sampling. Also: large magnitudes (clock beyond 2^40, prices around 2^31 incl. the complementary pair 2147483647/2147483648, volumes 70000, 2e9, 3e9, filtered by the validity clause), the highest grid prices for ticks 2 and 10, start states with 15-order queues and several hundred earlier orders, coinciding values (price = volume = id = trader id).",
    note="Trusted: the harness's reference engine (refmodel.rs) as the definition of price-time priority; behaviour for prices/volumes outside the small alphabet is assumed uniform (no magnitude-dependent control flow below 2^32)."),
  "C02": dict(cat="model_checking", engine="seqx", ref="§3 C02",
    tech="exhaustive bounded-depth enumeration of operation sequences; every published view recomputed from get_orders() after every operation; tick x LEVELS configuration sweep",
-   text="All histories to the stated depth (placements, cancels, modifies, toggles, reload; also separate create/place with every request aimed at unplaced orders) at ticks 1..10 x LEVELS 1..24 plus price bands at both ends of the price axis and deep 12-level ladders; after every operation each view is recomputed from get_orders() alone and all views must agree; never crossed unless trading was disabled.",
+   text="All histories to the stated depth (placements, cancels, modifies, toggles, reload; also separate create/place with every request aimed at unplaced orders) at ticks 1..10 x LEVELS 1..24 plus price bands at both ends of the price axis and deep 12-level ladders; after every operation each view is recomputed from get_orders() alone and all views must agree; never crossed unless trading was disabled. Also: large magnitudes (times, prices around 2^31, volumes up to 3e9), long-queue and hundreds-of-orders start states.",
    note="Trusted: get_orders() statuses/prices/volumes (they are what the recomputation is based on; C01/C04 check those)."),
  "C03": dict(cat="model_checking", engine="seqx", ref="§3 C03",
    tech="exhaustive bounded-depth enumeration; ledger audit (append-only, per-trade legality, per-order conservation, counter) after every operation",
-   text="All histories to the stated depth including modifies that trade, toggles and counter resets; after each operation the trade log is audited against get_orders() and against the volumes the harness itself submitted.",
+   text="All histories to the stated depth including modifies that trade, toggles and counter resets; after each operation the trade log is audited against get_orders() and against the volumes the harness itself submitted. Also: large magnitudes, counter windows whose lifetime volume passes 2^32, coinciding values, long-queue and hundreds-of-orders start states.",
    note="Trusted: nothing but the harness's own bookkeeping of the requests it issued."),
  "C04": dict(cat="model_checking", engine="seqx+absx", ref="§3 C04",
    tech="exhaustive bounded-depth enumeration with place/cancel/modify offered on every id in every status; per-order transition-graph check and full-snapshot equality around redundant requests",
-   text="All histories to the stated depth where place, cancel and modify are offered for every id whatever its status and set_time is an operation, with the clock advanced before every operation and (C04 has no clock-discipline clause) with clock advance {0,+1} everywhere; an explicit-state closure retries redundant requests against every dead class in every reachable abstract book; every order's status transition, immutables, arrival and end time are checked on every step and redundant requests must leave the full snapshot unchanged.",
+   text="All histories to the stated depth where place, cancel and modify are offered for every id whatever its status and set_time is an operation, with the clock advanced before every operation and (C04 has no clock-discipline clause) with clock advance {0,+1} everywhere; an explicit-state closure retries redundant requests against every dead class in every reachable abstract book; every order's status transition, immutables, arrival and end time are checked on every step and redundant requests must leave the full snapshot unchanged. Also: large magnitudes incl. set_time by 2^33, a deep one-price plan with snapshot reload as an operation, coinciding values, long-queue and hundreds-of-orders start states.",
    note="Trusted: nothing beyond the public getters."),
  "C05": dict(cat="model_checking", engine="seqx+absx+envx", ref="§3 C05",
    tech="exhaustive bounded-depth enumeration with clock advance {0,+1} as a choice at every step (all tie patterns), reference engine with insertion-order queues + drain probe + views/ledger/lifecycle/reload monitors; environment steps with more instructions than time units over all n! schedules",
-   text="Same exhaustive exploration as C01-C04/C06/C07 but every operation may happen without advancing the clock, so every pattern of equal timestamps within the depth bound is executed (also from books crossed while trading was off); the reference engine defines the expected queue order as insertion order. An explicit-state closure (stateright) with the clock advance {0,+1} in every action and clipped queue ages in the key removes the depth bound within its caps. Environment: steps carrying more instructions than the step size under all n! schedules.",
+   text="Same exhaustive exploration as C01-C04/C06/C07 but every operation may happen without advancing the clock, so every pattern of equal timestamps within the depth bound is executed (also from books crossed while trading was off); the reference engine defines the expected queue order as insertion order. An explicit-state closure (stateright) with the clock advance {0,+1} in every action and clipped queue ages in the key removes the depth bound within its caps. Environment: steps carrying more instructions than the step size under all n! schedules. Also: ties at the complementary prices 2147483647/2147483648 and between bids above 2^31, to depth 6-7.",
    note="Trusted: reference engine; bounded depth."),
  "C06": dict(cat="model_checking", engine="seqx+absx", ref="§3 C06",
    tech="exhaustive bounded-depth enumeration with modify(price in {-,each grid price}, volume in {-,1..4}) on every id in every status; reference engine + drain probe after every step",
-   text="Every modify request shape on every order in every status at every point of every history to the stated depth; the drain probe exposes the queue seat right after the modify.",
+   text="Every modify request shape on every order in every status at every point of every history to the stated depth; the drain probe exposes the queue seat right after the modify. Also: large magnitudes (reductions by more than 2^31, side volumes near 2^32), long-queue and hundreds-of-orders start states.",
    note="Trusted: reference engine encodes 'only a pure reduction keeps the seat'."),
  "C08": dict(cat="model_checking", engine="envx", ref="§3 C08",
    tech="exhaustive enumeration of environment scenarios (submissions x toggles x steps) with every shuffle outcome forced through a scripted RngCore (all n! index scripts); candidate-schedule oracle: some permutation replayed on plain OrderBooks + reference engine at times start+i must reproduce the step",
-   text="Every scenario within the bounds (total submissions, steps, toggles; Env<3>, Env<10>, MarketEnv<2,3>; step size equal to the batch size and large; from empty and pre-populated books) is run on a fresh real environment under every one of the n! index scripts of the shuffle. After each step the set of permutations whose replay on stand-alone books reproduces exactly the observed orders, trades, views and time must be non-empty; clock, per-step traded volume and queue emptiness (an extra empty step) are checked directly.",
+   text="Every scenario within the bounds (total submissions, steps, toggles; Env<3>, Env<10>, MarketEnv<2,3>; step size equal to the batch size and large; from empty and pre-populated books) is run on a fresh real environment under every one of the n! index scripts of the shuffle. After each step the set of permutations whose replay on stand-alone books reproduces exactly the observed orders, trades, views and time must be non-empty; clock, per-step traded volume and queue emptiness (an extra empty step) are checked directly. Also: more assets than levels (MarketEnv<3,2>, <2,1>, <4,3>), volumes of 1e9..3e9 with a clock beyond 2^40 (steps offered only where every schedule is valid), and batches of 6..1030 (thorough 4097) instructions whose schedule is read off the arrival stamps and replayed on stand-alone books; the environment's order(id)/order_status(id)/get_orders/get_trades must match its book in every node.",
    note="Trusted: the stand-alone OrderBook (checked by C01-C06) and the harness reference engine as replay targets; rand's mapping from generator words to indices is not trusted (the oracle is independent of it)."),
  "C10": dict(cat="model_checking", engine="envx", ref="§3 C10",
    tech="same exhaustive scenario enumeration as C08 (all schedules via scripted RngCore), observing the full environment between every two actions",
-   text="Before and after every submission the complete observable state (live book, recorded histories, level-2 snapshot, env getters) is compared: only an appended New order may differ; the level-2 snapshot handed to agents must equal the live book's level-2 data after construction, every submission, toggle and step.",
+   text="Before and after every submission the complete observable state (live book, recorded histories, level-2 snapshot, env getters) is compared: only an appended New order may differ; the level-2 snapshot handed to agents must equal the live book's level-2 data after construction, every submission, toggle and step. Also: prices just below 2^32-1 (ask level walks pass the top), volumes of 1e9..3e9, clocks beyond 2^40.",
    note="Trusted: nothing beyond the public getters."),
  "C11": dict(cat="model_checking", engine="envx", ref="§3 C11",
    tech="same exhaustive scenario enumeration (all schedules), the harness reads the live book after every step and compares every recorded series entry by entry; LEVELS 1..24 sweep",
-   text="After step j the harness reads the live book; after k steps every series (touch prices, side volumes, 4 x LEVELS per-level series, touch getters, per-step traded volume) must have exactly k entries and entry j must equal the value read at step j, bid against bid; traded volume j must equal the log's volume stamped within step j.",
+   text="After step j the harness reads the live book; after k steps every series (touch prices, side volumes, 4 x LEVELS per-level series, touch getters, per-step traded volume) must have exactly k entries and entry j must equal the value read at step j, bid against bid; traded volume j must equal the log's volume stamped within step j. Also: prices just below 2^32-1, one published level (MarketEnv<2,1>), volumes of 1e9..3e9 with step size 2^33.",
    note="Trusted: live getters of the book (C02)."),
  "C14": dict(cat="model_checking", engine="marketx+envx", ref="§3 C14",
    tech="exhaustive bounded-depth enumeration of interleaved per-asset operations on Market<1..4> against lock-step stand-alone OrderBooks; MarketEnv scenarios under all n! schedules with the per-asset candidate-schedule oracle",
-   text="Market<A> (A=1..4, distinct ticks): every interleaving of per-asset operations (incl. zero-volume requests and per-asset toggles through get_order_book_mut) to the stated depth; each asset must equal a stand-alone real OrderBook fed only its own operations at the same times, every all-asset query must be the array of the stand-alone values, other assets must be untouched. MarketEnv<1..4>: C08's oracle per asset with instructions spread over assets and every order of the shared queue.",
+   text="Market<A> (A=1..4, distinct ticks): every interleaving of per-asset operations (incl. zero-volume requests and per-asset toggles through get_order_book_mut) to the stated depth; each asset must equal a stand-alone real OrderBook fed only its own operations at the same times, every all-asset query must be the array of the stand-alone values, other assets must be untouched. MarketEnv<1..4>: C08's oracle per asset with instructions spread over assets and every order of the shared queue. Also: markets of 12 assets, batches of 12..257 (thorough 1025) instructions over 2-4 assets replayed on stand-alone books in stamp order, C10's and C11's clauses on MarketEnv from three-level books.",
    note="Trusted: the single-asset OrderBook (C01-C06)."),
  "C15": dict(cat="model_checking", engine="scriptrng+envx", ref="§3 C15",
    tech="exhaustive enumeration of the shuffle's decision space through a scripted RngCore: all n! index scripts (n<=7 quick, 8 thorough) must map bijectively onto S_n and coincide with the library shuffle of the submission order; deviation-bounded scripts (<=2 non-zero answers) up to n=64; every batch content word over {limit, market, cancel, modify} x assets under every script",
-   text="Exact replacement for the statistical test: through the real Env::step / MarketEnv::step with a generator whose every answer is scripted. (a) all index scripts for n=2..7: script -> processing order is a bijection onto S_n, equal to rand's own shuffle of the submission order, with exactly n-1 draws; (b) n up to 64 with <=2 non-zero answers: equal to the library shuffle, all distinct, every item reaches the pivot position by the first draw alone; (c) the order is the same function of the script for every batch content (kinds, assets, submission order); (d) same script twice -> same order; (e) the whole decision repeated under other environment configurations: step sizes 1, n-1, n (batch larger than the step) and trading off at construction or switched off later. If the implementation stops being a product of independent bounded draws the check degrades to necessary conditions (determinism, content independence, an information-theoretic bound on consumed generator bits) and says so.",
+   text="Exact replacement for the statistical test: through the real Env::step / MarketEnv::step with a generator whose every answer is scripted. (a) all index scripts for n=2..7: script -> processing order is a bijection onto S_n, equal to rand's own shuffle of the submission order, with exactly n-1 draws; (b) n up to 64 with <=2 non-zero answers: equal to the library shuffle, all distinct, every item reaches the pivot position by the first draw alone; (c) the order is the same function of the script for every batch content (kinds, assets, submission order); (d) same script twice -> same order; (e) the whole decision repeated under other environment configurations: step sizes 1, n-1, n (batch larger than the step) and trading off at construction or switched off later. If the implementation stops being a product of independent bounded draws the check degrades to necessary conditions (determinism, content independence, an information-theoretic bound on consumed generator bits) and says so. Also: every pair of index scripts on two consecutive steps (n <= 4, thorough 5) and environments living for 9100 (thorough 17500) instructions, each step compared with the library shuffle under that step's answers alone.",
    note="Trusted base: rand's bounded uniform draws are uniform and independent given a uniform generator. The property's own sampling test is not used."),
  "C16": dict(cat="model_checking", engine="agentsx", ref="§3 C16",
    tech="exhaustive enumeration of a configuration grid (agent type x tick 1..10 x probabilities x sigma x traders x start book x single/multi asset) crossed with deviation-bounded scripted generator answers (default stream + every placement of <=2 extreme answers in the first N draws of each update, 3 rounds); plus a bounded enumeration of seeds",
-   text="Each agent group is updated alone, in an environment that also holds foreign orders (7 start books incl. both ends of the price axis), under a scripted RngCore: the default stream plus every placement of up to two extreme words (0, all-ones, threshold-adjacent) among the first N draws of an update, in each of three consecutive update+step rounds, over the full configuration grid. Orders submitted during update and cancellations taking effect in the following step are judged against the statement (grid, range / side of observed mid, volume, trader ids, own active orders only, one live order per random agent, probability 0 never / >=1 always, no abort). Long default-stream runs over seeds 0..15 are a bounded enumeration of seeds and are labelled as such.",
+   text="Each agent group is updated alone, in an environment that also holds foreign orders (7 start books incl. both ends of the price axis), under a scripted RngCore: the default stream plus every placement of up to two extreme words (0, all-ones, threshold-adjacent) among the first N draws of an update, in each of three consecutive update+step rounds, over the full configuration grid. Orders submitted during update and cancellations taking effect in the following step are judged against the statement (grid, range / side of observed mid, volume, trader ids, own active orders only, one live order per random agent, probability 0 never / >=1 always, no abort). Long default-stream runs over seeds 0..15 are a bounded enumeration of seeds and are labelled as such. Also: tick ranges reaching both ends of the price axis, populations of 300, 65535, 65536 and 70000 agents, the momentum agents' documented activity rule with M recomputed from observed mid-prices (decay 0.5, ratio 0.5, a flat fourth round).",
    note="Deviation bound 2 and N scripted draws per update; seeds are an unbounded domain (enumerated 0..15 only)."),
  "C17": dict(cat="model_checking", engine="agentsx/c17", ref="§3 C17",
    tech="exhaustive enumeration of all mid-price paths with moves in {-2..2} ticks up to a length bound (harness re-quotes a deep market), crossed with parameter grid and scripted per-trader decision draws; oracle recomputes M; mirrored-run differential",
-   text="The harness imposes every mid-price path over moves {-2,-1,0,+1,+2} ticks up to the stated length and scripts the generator of the judged update (default, all-zero, all-ones, mid, and with order ratio 0 every combination of {0, p-eps, p+eps, 1-eps} per trader). M is recomputed from observed mids; at saturation (order ratios 0, 0.5, 1) exactly one market (and limit) order per trader on the side of sign(M), nothing at M = 0, action iff draw < |p| otherwise; the same script on the mirrored path must give the mirrored order flow.",
+   text="The harness imposes every mid-price path over moves {-2,-1,0,+1,+2} ticks up to the stated length and scripts the generator of the judged update (default, all-zero, all-ones, mid, and with order ratio 0 every combination of {0, p-eps, p+eps, 1-eps} per trader). M is recomputed from observed mids; at saturation (order ratios 0, 0.5, 1) exactly one market (and limit) order per trader on the side of sign(M), nothing at M = 0, action iff draw < |p| otherwise; the same script on the mirrored path must give the mirrored order flow. Also: mid-prices around 2e7 (beyond 2^24) with one-tick moves and with moves of 1.2 and 3 million ticks.",
    note="Trusted: the documented recurrence for M; lognormal price offsets are only checked through the mirror differential."),
  "C09": dict(cat="model_checking", engine="c09 + scriptrng", ref="§3 C09, §10.9",
    tech="controlled-generator exploration of the real simulator: every generator stream within a deviation bound (default stream with <=d extreme answers among the first N draws of a round, all 14 agent compositions) executed twice in-process and once in a fresh OS process, outputs bit-compared; exhaustive run-length sweep (every step count 0..N, both progress-bar branches of the library runners vs the hand-written loop); plus the seed x parameter grid crossed with every enumerated nondeterminism dimension (repeat, 3 child processes, record / play-back of the generator words)",
@@ -61,27 +61,27 @@ BUILT = {
    note="Bounded: deviation bound d (1 quick / 2 thorough) over N (16 / 12) scripted draws per round; seeds in part (c) are a finite list (0..1 quick, 0..7 thorough) - that part alone would be 'exploration'. This check is also the uncontrolled-nondeterminism gate the other checks rely on."),
  "C18": dict(cat="model_checking", engine="pytrace + py/driver.py", ref="§3 C18",
    tech="exhaustive bounded-depth enumeration of Python call sequences (OrderBook and StepEnv, incl. off-grid prices and out-of-range integers) generated by the Rust side with expected values from the Rust crates; every trace replayed on the freshly built extension under CPython; snapshot exchange both ways",
-   text="Every call sequence to the stated depth over the Python API (place limit/market on- and off-grid, cancel, modify incl. no-op and zero-volume, set_time, toggles, step, out-of-range integers; step sizes 100, 1 and 0; every getter called between any two calls) is executed on the real compiled extension under CPython 3.11; the return value or exception of the last call and every getter afterwards must equal what the Rust core gives for the same sequence (sides True = bid, statuses 0..4); failing calls must leave the object unchanged; StepEnv traces are replayed twice (determinism in the seed); snapshots of all states of depth <= 3 are exchanged Python->Rust and Rust->Python and the loaded books are swept on both sides.",
+   text="Every call sequence to the stated depth over the Python API (place limit/market on- and off-grid, cancel, modify incl. no-op and zero-volume, set_time, toggles, step, out-of-range integers; step sizes 100, 1 and 0; every getter called between any two calls) is executed on the real compiled extension under CPython 3.11; the return value or exception of the last call and every getter afterwards must equal what the Rust core gives for the same sequence (sides True = bid, statuses 0..4); failing calls must leave the object unchanged; StepEnv traces are replayed twice (determinism in the seed); snapshots of all states of depth <= 3 are exchanged Python->Rust and Rust->Python and the loaded books are swept on both sides. Also: scripted traces with tick sizes 1..2^32-1 (incl. 65535, 65536, 4.5e8, 2^31), start times 2^40, step sizes 1 and 2^33, volumes of 2e9..4e9, limit prices 0 and 2^32-1.",
    note="One interpreter (python3-vt: CPython 3.11.7, numpy 2.4.6); the extension is imported directly as module `core`."),
  "C19": dict(cat="model_checking", engine="pytrace + py/driver.py", ref="§3 C19",
    tech="for every environment state reached by exhaustively enumerated StepEnv call traces (and the same instructions through StepEnvNumpy), all four array methods, both get_market_data dictionaries and both data-frame helpers are compared element by element with the documented index tables",
-   text="Dynamic check (numpy is available in the tooling venv): every state reached by the enumerated traces - overwhelmingly asymmetric books, incl. idle steps and books whose resting orders have zero volume - is observed through StepEnv.level_1_data_array / level_2_data_array, StepEnvNumpy.level_1_data / level_2_data, both get_market_data dictionaries and trades_to_dataframe / orders_to_dataframe; element k must be the documented quantity, lengths 9 and 45, keys exactly the 45 documented names bound to the matching series, columns named after the fields.",
+   text="Dynamic check (numpy is available in the tooling venv): every state reached by the enumerated traces - overwhelmingly asymmetric books, incl. idle steps and books whose resting orders have zero volume - is observed through StepEnv.level_1_data_array / level_2_data_array, StepEnvNumpy.level_1_data / level_2_data, both get_market_data dictionaries and trades_to_dataframe / orders_to_dataframe; element k must be the documented quantity, lengths 9 and 45, keys exactly the 45 documented names bound to the matching series, columns named after the fields. The documented quantities are recomputed in the driver from the order list alone (independent of the core's level functions); also 70000 orders on one level and volumes of 1e9 through StepEnvNumpy, limit prices 0 and 2^32-1.",
    note="The documented tables are transcribed once into py/driver.py; pandas is replaced by a minimal stand-in (not installed offline)."),
  "C20": dict(cat="model_checking", engine="c20 (build.rs generated programs)", ref="§3 C20",
    tech="exhaustive enumeration of struct shapes (all field-kind words of length 1..4 over {probe A, probe B, nested derived set} + 14 shapes of 5..8 fields, both derive macros), each compiled into the harness and compared call-by-call and draw-by-draw with the flattened hand-written sequence",
-   text="Struct shapes: every field-kind word of length 1..4 (+14 long ones) plainly written, and every word of length 1..3 (+2 long ones) re-declared with six syntactic decorations (field attributes, struct attributes, visibilities, type paths/parentheses, raw identifiers, macro_rules! template with `ty` fragments). For each generated struct the derived update and the hand-written self.f0.update(env, rng); ... (nested sets flattened) are run on fresh environments with the same seed, twice with a step in between; the probe log (field tag, fingerprint of the environment it was handed, first draw), the final orders and the next generator word must be identical.",
+   text="Struct shapes: every field-kind word of length 1..4 (+14 long ones) plainly written, and every word of length 1..3 (+2 long ones) re-declared with six syntactic decorations (field attributes, struct attributes, visibilities, type paths/parentheses, raw identifiers, macro_rules! template with `ty` fragments). For each generated struct the derived update and the hand-written self.f0.update(env, rng); ... (nested sets flattened) are run on fresh environments with the same seed, twice with a step in between; the probe log (field tag, fingerprint of the environment it was handed, first draw), the final orders and the next generator word must be identical. Field names that are unsorted, underscore-prefixed, upper-case or non-ASCII are among the decorations.",
    note="Programs are limited to named-field structs built from the two probe types and a nested derived set; 1..8 fields."),
  "C12": dict(cat="model_checking", engine="seqx+envx", ref="§3 C12",
    tech="exhaustive bounded-depth enumeration with on- and off-grid prices offered to create, create_and_place and modify at every point of every history; grid monitor",
-   text="Ticks 2,3,5,10 with off-grid neighbours of grid prices and the largest representable price (where it is off the grid) offered to every creating and modifying entry point at every point of every history to the stated depth; in the environments, the level data they publish after every step must account for the resting orders; rejected creations must leave the snapshot untouched; every resting price on the grid; published levels account for all resting volume in range.",
+   text="Ticks 2,3,5,10 with off-grid neighbours of grid prices and the largest representable price (where it is off the grid) offered to every creating and modifying entry point at every point of every history to the stated depth; in the environments, the level data they publish after every step must account for the resting orders; rejected creations must leave the snapshot untouched; every resting price on the grid; published levels account for all resting volume in range. Also: limit prices 0 and 2^32-1 where they are on the grid (book, Env, MarketEnv).",
    note="Trusted: nothing beyond the public getters."),
  "C07": dict(cat="model_checking", engine="seqx+marketx", ref="§3 C07",
    tech="exhaustive bounded-depth enumeration with reload (in-memory / compact file / pretty file) as an operation, model-free differential against the never-reloaded run + sweep; every truncation offset of every snapshot file of a bounded state set",
-   text="(a) reload is an operation of the alphabet, so it lands at every point of every history to the stated depth (book LEVELS 1,2,3,10,24; Market<2>,<3> against never-reloaded shadow books; tick sizes 1,2,3,7,10 with unplaced limit and market orders present at the snapshot point); the run h.reload.c must be indistinguishable from h.c on the same real code, step by step and when swept. (b) for every history of length <= d, both formats, the file cut at every byte offset must be rejected with an error.",
+   text="(a) reload is an operation of the alphabet, so it lands at every point of every history to the stated depth (book LEVELS 1,2,3,10,24; Market<2>,<3> against never-reloaded shadow books; tick sizes 1,2,3,7,10 with unplaced limit and market orders present at the snapshot point); the run h.reload.c must be indistinguishable from h.c on the same real code, step by step and when swept. (b) for every history of length <= d, both formats, the file cut at every byte offset must be rejected with an error. Also: counter resets before the snapshot, clocks beyond 2^53 and volumes up to 3e9 through the JSON round trip, the complementary price pair with equal timestamps, 6000-order books (files beyond 1 MiB), a deep one-price plan where queue order differs from id order, markets of 12 and 25 assets.",
    note="Trusted: nothing beyond the public getters; torn writes other than truncation are outside the statement."),
  "C13": dict(cat="model_checking", engine="seqx+absx+marketx+envx", ref="§3 C13",
    tech="exhaustive bounded-depth enumeration with enable/disable as operations at every point; reference engine + direct no-trade clauses + drain probe",
-   text="Trading toggles land at every point of every history to the stated depth (both start states; book, Market<2>,<3> with market-wide and per-asset toggles against stand-alone books, Env and MarketEnv); trade log constant while off, market orders rejected without touching the book, toggles are no-ops, matching after re-enabling equals the reference engine's.",
+   text="Trading toggles land at every point of every history to the stated depth (both start states; book, Market<2>,<3> with market-wide and per-asset toggles against stand-alone books, Env and MarketEnv); trade log constant while off, market orders rejected without touching the book, toggles are no-ops, matching after re-enabling equals the reference engine's. Also: the two highest grid prices for ticks 2 and 10, large magnitudes.",
    note="Trusted: reference engine."),
 }
 
